@@ -416,5 +416,6 @@ func (a *Adapter) switchTo(nc rhp4.ContractRevision) {
 	}
 	a.K = &Contract{ID: nc.ID, RenterKey: oldK.RenterKey, Rev: st.Revision, Formed: st.Revision}
 	a.Base = st.Revision
+	a.History, a.confirmed = nil, 0
 	a.Switched = true
 }
